@@ -14,11 +14,11 @@ package nfpm
 //@ func PrepareForPackager(info *Info, packager string) (err error)
 //@   requires info != nil
 //@   requires files.SpecContentsNonNil(info.Contents)
-//@   requires !flag("failed") && !flag("clockRead") && !flag("envRead")
+//@   requires !ghostFlag("failed") && !ghostFlag("clockRead") && !ghostFlag("envRead")
 //@   ensures [C11 C12 C01] plan-fresh: implies(err == nil, SpecPlanOK(info.Contents, !old(info.MTime.IsZero())))
-//@   ensures [C06] loud: implies(err == nil, flag("failed") == old(flag("failed")))
-//@   ensures [C07] no-clock: implies(!old(info.MTime.IsZero()), flag("clockRead") == old(flag("clockRead")))
-//@   ensures [C07] no-env: flag("envRead") == old(flag("envRead"))
+//@   ensures [C06] loud: implies(err == nil, ghostFlag("failed") == old(ghostFlag("failed")))
+//@   ensures [C07] no-clock: implies(!old(info.MTime.IsZero()), ghostFlag("clockRead") == old(ghostFlag("clockRead")))
+//@   ensures [C07] no-env: ghostFlag("envRead") == old(ghostFlag("envRead"))
 //@   modifies [C11 C12] &info.Contents, flag("failed"), flag("clockRead")
 //
 //@ import "strconv"
@@ -45,7 +45,7 @@ package nfpm
 //@   ensures [C14] schema-none-verbatim: implies(old(info.VersionSchema) == "none" && old(info.Version) != "", info.Version == old(info.Version) && info.Prerelease == old(info.Prerelease) && info.VersionMetadata == old(info.VersionMetadata))
 //@   ensures [C14] semver-by-default: implies(old(info.VersionSchema) != "none" && old(info.Version) != "" && ufBool("semverOK", old(info.Version)), info.Version == semverCore(old(info.Version)) && info.Prerelease == nz(old(info.Prerelease), ufStr("semverPre", old(info.Version))) && info.VersionMetadata == nz(old(info.VersionMetadata), ufStr("semverMeta", old(info.Version))))
 //@   ensures [C14] unparsable-verbatim: implies(old(info.Version) != "" && !ufBool("semverOK", old(info.Version)), info.Version == old(info.Version) && info.Prerelease == old(info.Prerelease))
-//@   ensures [C07] mtime-kept: implies(!old(info.MTime.IsZero()), info.MTime == old(info.MTime) && flag("envRead") == old(flag("envRead")))
+//@   ensures [C07] mtime-kept: implies(!old(info.MTime.IsZero()), info.MTime == old(info.MTime) && ghostFlag("envRead") == old(ghostFlag("envRead")))
 //@   ensures [C11] same-object: result == info
 //@   modifies [C11 C12] &info.Platform, &info.Description, &info.Arch, &info.Version, &info.Umask, &info.MTime, &info.Prerelease, &info.VersionMetadata, flag("envRead")
 //
